@@ -106,8 +106,30 @@ def setup_calc(it, cfg):
     return su
 
 
+def calc_pct(it, t1, t2):
+    """ghost: the value calculate(t1, t2) of cpu_percent() - a pure function of its two arguments (its own contract pins it
+    down); callers are verified against this name, not against its body"""
+    name = f"calc_pct_{len(t1)}"
+    it.ctx.uf(name, ["Real"] * (2 * len(t1)), "Real")
+    return smt.app(name, "Real", *[lift(x, "Real") for x in list(t1) + list(t2)])
+
+
+def calc_shares(it, t1, t2):
+    cls = it.env_over["_pslinux.scputimes"]
+    out = []
+    for k in range(len(t1)):
+        name = f"calc_share_{len(t1)}_{k}"
+        it.ctx.uf(name, ["Real"] * (2 * len(t1)), "Real")
+        out.append(smt.app(name, "Real", *[lift(x, "Real") for x in list(t1) + list(t2)]))
+    return cls(*out)
+
+
+HELPERS = dict(HELPERS, calc_pct=calc_pct, calc_shares=calc_shares)
+
+
 REGISTRY.add(Contract(
     "C07", INIT, "cpu_percent.<locals>.calculate", setup=setup_calc, configs=ARITIES, env=BASE_ENV, helpers=HELPERS,
+    returns=lambda it, env: calc_pct(it, env["t1"], env["t2"]), callee_ensures=[],
     ensures=[
         "implies(tot(deltas(t1, t2)) == 0, result == 0.0)",
         # result = round1(100*busy/all): |result*all - 100*busy| <= 0.05*all
@@ -122,7 +144,7 @@ REGISTRY.add(Contract(
 
 REGISTRY.add(Contract(
     "C07", INIT, "cpu_times_percent.<locals>.calculate", setup=setup_calc, configs=ARITIES, env=BASE_ENV,
-    helpers=HELPERS,
+    helpers=HELPERS, returns=lambda it, env: calc_shares(it, env["t1"], env["t2"]), callee_ensures=[],
     ensures=[
         "implies(tot(deltas(t1, t2)) == 0, forall(nonguest(n), lambda k: result[k] == 0.0))",
         "forall(range(n), lambda k: 0 <= result[k] and result[k] <= 100)",
@@ -239,3 +261,111 @@ PST = Contract("C07", LINUX_PY, "cpu_times", name="_pslinux.cpu_times / per_cpu_
 BOUNDED_CONTRACTS = [PST]
 BOUNDED = [bounded_sweep(PST, "c07:proc_stat", quick=150, thorough=3000)]
 NOT_COVERED.append("the /proc/stat text decoding (cpu_times, per_cpu_times) is a bounded sweep over generated files, not proved")
+
+
+# --- the system-wide front ends: "each calling thread is measured against its own previous sample" ---------------------------
+# cpu_percent() / cpu_times_percent() keep one previous sample per calling thread in four module-level dicts.  Contract: a
+# non-blocking call is measured from *this thread's* previous sample when it has one (else from a fresh one), a blocking
+# call between the two samples around the sleep; the call leaves this thread's newest sample behind and does not touch any
+# other thread's entry (frame).  The nested calculate() keeps its own contract above; here its result is tied to the pair of
+# samples it must be given.
+from vc.interp import Obj as _Obj  # noqa: E402
+
+TID, OTHER_TIDS = 111, (222, 333)
+
+
+def setup_front(fn_name, cache_names):
+    def setup(it, cfg):
+        n, percpu = cfg["n"], cfg["percpu"]
+        cls = scputimes_cls(n)
+        it.env_over["_pslinux.scputimes"] = cls
+        ncpu = 2
+
+        def sample(tag):
+            if percpu:
+                return [fresh_nt(it, cls, f"{tag}{c}", nonneg=True) for c in range(ncpu)]
+            return fresh_nt(it, cls, tag, nonneg=True)
+
+        prev, a, b = sample("prev"), sample("sa"), sample("sb")
+        others = {t: sample(f"o{t}") for t in (OTHER_TIDS if cfg["others"] else ())}
+        cache = dict(others)
+        if cfg["has_prev"]:
+            cache[TID] = prev
+        idle = {t: sample(f"x{t}") for t in OTHER_TIDS}           # the dict of the other form (percpu or not): untouched
+        mine, other = (cache_names[1], cache_names[0]) if percpu else cache_names
+        it.env_over[f"__init__.{mine}"] = cache
+        it.env_over[f"__init__.{other}"] = idle
+        reads = {"n": 0}
+
+        def cpu_times(it2, percpu=False):
+            reads["n"] += 1
+            return a if reads["n"] == 1 else b
+
+        it.env_over["__init__.cpu_times"] = EnvFunc("cpu_times", cpu_times)
+        it.env_over["time.sleep"] = EnvFunc("sleep", lambda it2, d: it2.ctx.log.append(("sleep", d)))
+        it.env_over["threading.current_thread"] = EnvFunc(
+            "current_thread", lambda it2: _Obj("Thread", {"ident": TID}))
+        nthreads = it.fresh("nthreads", "Int")                      # whatever else the process is running
+        it.assume(smt.Cmp(">=", nthreads, I(1)))
+        it.env_over["threading.active_count"] = EnvFunc("active_count", lambda it2: nthreads)
+        it.env_over["threading.get_ident"] = EnvFunc("get_ident", lambda it2: TID)
+        mode = cfg["mode"]
+        if mode == "none":
+            interval = None
+        elif mode == "zero":
+            interval = 0.0
+        elif mode == "neg":
+            interval = it.fresh("interval", "Real")
+            it.assume(smt.Cmp("<", interval, R(0)))
+        else:
+            interval = it.fresh("interval", "Real")
+            it.assume(smt.Cmp(">", interval, R(0)))
+        block = mode == "block"
+        t1 = a if (block or not cfg["has_prev"]) else prev
+        t2 = b if (block or not cfg["has_prev"]) else a
+        return {"args": {"interval": interval, "percpu": percpu},
+                "spec": {"cache": cache, "idle": idle, "idle0": dict(idle), "others": others, "t1": t1, "t2": t2,
+                         "n": n, "mode": mode, "percpu": percpu, "TID": TID, "interval": interval,
+                         "pairs": list(zip(t1, t2)) if percpu else [(t1, t2)]},
+                "values": values_of(*(list(prev) + list(a) + list(b)) if not percpu else ())}
+    return setup
+
+
+FRONT_CFGS = [{"n": n, "percpu": pc, "has_prev": hp, "others": ot, "mode": m}
+              for n in (8, 10) for pc in (False, True) for hp in (True, False) for ot in (True, False)
+              for m in ("none", "zero", "block")] + \
+             [{"n": 10, "percpu": False, "has_prev": True, "others": True, "mode": "neg"}]
+
+FRAME = [
+    # this thread's newest sample is left behind, nobody else's entry is touched, the other form's dict is not touched
+    "implies(mode != 'neg', cache[TID] == t2)",
+    "implies(mode != 'neg', set(cache) == set(others) | {TID} and forall(list(others), lambda t: cache[t] == others[t]))",
+    "implies(mode != 'neg', idle == idle0)",
+    "implies(mode == 'block', log == [('sleep', interval)])",
+    "implies(mode in ('none', 'zero'), log == [])",
+]
+
+REGISTRY.add(Contract(
+    "C07", INIT, "cpu_percent", name="cpu_percent (front end, per-thread samples)",
+    setup=setup_front("cpu_percent", ("_last_cpu_times", "_last_per_cpu_times")), env=BASE_ENV, configs=FRONT_CFGS,
+    helpers=HELPERS,
+    ensures=[
+        "implies(mode != 'neg' and not percpu, result == calc_pct(t1, t2))",
+        "implies(mode != 'neg' and percpu, len(result) == len(pairs) and "
+        "forall(range(len(pairs)), lambda i: result[i] == calc_pct(pairs[i][0], pairs[i][1])))",
+    ] + FRAME,
+    raises={"ValueError": "mode == 'neg'"}, canaries=["result == 7.25"], replay=None,
+    note="the value is calculate(own previous sample | fresh sample | pre-sleep sample, newest sample) - calculate() has its "
+         "own contract; other threads' samples untouched"))
+
+REGISTRY.add(Contract(
+    "C07", INIT, "cpu_times_percent", name="cpu_times_percent (front end, per-thread samples)",
+    setup=setup_front("cpu_times_percent", ("_last_cpu_times_2", "_last_per_cpu_times_2")), env=BASE_ENV,
+    configs=FRONT_CFGS, helpers=HELPERS,
+    ensures=[
+        "implies(mode != 'neg' and not percpu, result == calc_shares(t1, t2))",
+        "implies(mode != 'neg' and percpu, len(result) == len(pairs) and "
+        "forall(range(len(pairs)), lambda i: result[i] == calc_shares(pairs[i][0], pairs[i][1])))",
+    ] + FRAME,
+    raises={"ValueError": "mode == 'neg'"}, canaries=["result == 7.25"], replay=None,
+    note="per-field shares = calculate(own previous sample | fresh | pre-sleep, newest); other threads' samples untouched"))
